@@ -238,12 +238,13 @@ def run_history(history, want_digest=False):
                 if e["t_next"] == "pending":
                     e["t_next"] = i
             docs = obs.docs[st["d0"] : st["d1"]]
-            if st["outcome"] != ("return", None, "idle"):
-                out["violations"].append((i, "call-failed", "outcome", f"RE(...) for {op}: {st['outcome']}"))
             kinds_expected = ["start", "descriptor", "event", "stop"] * (2 if op == "Pu" else 1)
-            if [n for n, _ in docs] != kinds_expected:
-                out["harness_error"] = f"reference stream of op {i} ({op}) is {[n for n, _ in docs]}"
-                return out
+            kinds_got = [n for n, _ in docs]
+            if st["outcome"] != ("return", None, "idle"):
+                # the subscription machinery broke the call itself; what was emitted is still judged below
+                out["violations"].append((i, "call-failed", f"op={op},exc={st['outcome'][1]},docs={len(docs)}", f"RE(...) for {op}: {st['outcome']}, stream {kinds_got}"))
+            elif kinds_got != kinds_expected:
+                out["violations"].append((i, "stream-shape", f"op={op}", f"the first subscriber saw {kinds_got} in op {i} ({op})"))
             # temporary subscriptions of this call, with the phase in which they live (0: first run, 1: second run of Pu)
             temps = []
             if op == "Rf":
@@ -255,6 +256,7 @@ def run_history(history, want_digest=False):
             elif op == "Pu":
                 temps.append(("f", "all", "inplan", (0,)))
             e_unsub = {"c": "f", "filt": "all", "how": "inplan-unsubscribe", "t": i, "t_next": None} if op == "Pu" else None
+            first_stop = kinds_got.index("stop") if "stop" in kinds_got else len(kinds_got)  # Pu: run A ends there
             pattern = []
             for c in ("f", "g"):
                 log = sess.logs[c][st[c + "0"] : st[c + "1"]]
@@ -263,7 +265,7 @@ def run_history(history, want_digest=False):
                     got[(name, uid)] = got.get((name, uid), 0) + 1
                 refkeys = set()
                 for k, (name, doc) in enumerate(docs):
-                    phase = 1 if (op == "Pu" and k >= 4) else 0
+                    phase = 1 if (op == "Pu" and k > first_stop) else 0
                     key = (name, doc["uid"])
                     refkeys.add(key)
                     live_perm = [s for s in m.perm if s["c"] == c and _matches(s["filt"], name)]
